@@ -64,7 +64,7 @@ PROPS['C05'] = dict(
     explanation='calculate_lp_token_amount_to_user and provide_liquidity: share is min_i floor(d_i*S/r_i) against reserves net of native deposits (min-1 < m <= min, m >= 1), first provision gated by whitelist and minimums with floor(sqrt(d0*d1)) split 1 + (m-1); deposits pulled are exactly the declared amounts via TransferFrom(owner = caller) / attached funds.',
 )
 PROPS['C09'] = dict(
-    units=[('u_pair.rs', 'B', None)], min_tagged=5, trusted=PAIR_TRUST,
+    units=[('u_pair.rs', 'B', None), ('u_factory.rs', 'B', ['factory', 'querier'])], min_tagged=5, trusted=PAIR_TRUST,
     assumptions=['"otherwise nothing changes" = the handler returns Err and the chain reverts the transaction'],
     explanation='assert_sent_native_token_balance: Ok iff declared == amount of the first attached coin of that denom (0 when absent); provide_liquidity checks both declared assets before anything else (loop invariant), swap checks its offer first.',
 )
@@ -116,11 +116,13 @@ PROPS['C07'] = dict(
 
 T_FSTORE = 'factory storage: cw-storage-plus Item/Map modelled as fields / ghost maps of a storage record; may_load never fails on typed storage; Map::range(storage, None | ExclusiveRaw(lo), None, Ascending) yields every stored record whose key is above lo exactly once, in ascending byte order of the keys, and stored values deserialize (MapPairs::range_all / range_from, axiom_sorted_keys); read_all_pairs and read_pairs are VERIFIED on top of that'
 T_BYTES = 'byte-level std facts: String::as_bytes is an injective function of the text (UTF-8), <[u8] as Ord>::cmp is lexicographic, Ordering::then, bool::cmp, u64::to_be_bytes is injective with 8 bytes; slice::sort_by on two elements / [T;2]::to_vec / Vec::extend_from_slice behave like the verified helpers'
-T_FQ = 'factory-side queries are projections of the chain state: native_decimals_of (factory allow-list query), cw20 token_info, pair_self_report (the pair\'s own Pair{} answer), reply_contract_addr (address parsed from the instantiate reply); Decimal256 -> text -> Decimal256 and the literal "0.003" are text (C18 n/a) and assumed'
+T_FQ = 'factory-side queries are projections of the chain state: native_decimals_of (factory allow-list query), cw20 token_info, pair_self_report (the pair\'s own Pair{} answer), reply_contract_addr (address parsed from the instantiate reply); Decimal256 -> text -> Decimal256 and the literal "0.003" go through the text conversions, which are proved in the text unit (C18) and ASSUMED value-preserving in the factory unit'
 FACTORY_TRUST = [T_VERUS, T_FMT, T_CW, T_API, T_FSTORE, T_BYTES, T_FQ, T_SERDE, T_DERIVE2, T_R4, T_R2]
 PROPS['C07']['trusted'] = sorted(set(PROPS['C07']['trusted'] + FACTORY_TRUST))
 PROPS['C05']['trusted'] = sorted(set(PROPS['C05']['trusted'] + FACTORY_TRUST))
 PROPS['C10']['trusted'] = sorted(set(PROPS['C10']['trusted'] + FACTORY_TRUST))
+PROPS['C09']['trusted'] = sorted(set(PROPS['C09']['trusted'] + FACTORY_TRUST))
+PROPS['C09']['assumptions'] = PROPS['C09']['assumptions'] + ['the two assets of a pair are distinct (one attached coin cannot stand for both declared deposits): established by the factory, whose creation path is verified here (`create.distinct-assets`); a pair instantiated by hand with the same asset twice is outside the statement']
 PROPS['C13']['trusted'] = sorted(set(PROPS['C13']['trusted'] + PAIR_TRUST))
 PROPS['C06']['trusted'] = sorted(set(PROPS['C06']['trusted'] + PAIR_TRUST + FACTORY_TRUST))
 PROPS['C06']['assumptions'] = PROPS['C06'].get('assumptions', []) + ['the commission rate c of the statement is the rate the pair was created with: the factory hands the requested rate (or the default) to the pair unchanged, the pair stores it at instantiate, nothing rewrites it (migrate, decimals update), and swap / simulation read that stored rate']
